@@ -505,6 +505,7 @@ pub fn variants(tier: Tier) -> Vec<(String, M, usize)> {
 
 pub fn run_object_level(ctx: &Ctx) {
     super::c05n::run_node_level(ctx);
+    super::c05e::run(ctx);
     ctx.assume("object level: two parties, at most 4 distinct datagrams in flight (identical retransmissions are one datagram; Dup delivers any of them again), at most one restart per side");
     ctx.assume("fair suffix: reliable network with bounded rate (32 datagrams per tick, 4 once an echo storm was seen for 3 ticks), 125 ticks");
     ctx.assume("node level: deviations only at the first 10-14 datagram hand-overs, at most 2 per execution; reliable phase 430 s");
@@ -525,6 +526,9 @@ pub fn run_object_level(ctx: &Ctx) {
 pub fn replay_object_level(family: &str, case: &Value) -> Option<CaseResult> {
     if family == "node_deviations" {
         return super::c05n::replay_node_level(case);
+    }
+    if family.starts_with("node_schedules") {
+        return super::c05e::replay(family, case);
     }
     let fam = family.trim_end_matches("-audit");
     let (_, m, _) = variants(Tier::Thorough).into_iter().find(|(f, _, _)| f == fam)?;
